@@ -395,9 +395,7 @@ func (p *Parser) parseAmount() *ast.Amount {
 	}
 	numberStr := rawNumberStr
 
-	numberStr = normalizeAmountNumber(numberStr)
-
-	qty, err := decimal.NewFromString(numberStr)
+	qty, err := ParseNumber(numberStr)
 	if err != nil {
 		p.error("invalid number: %s", p.current.Value)
 		return nil
@@ -909,7 +907,32 @@ func toASTPosition(pos Position) ast.Position {
 // ParseNumber reads a number as it may be written in a journal (digit groups,
 // decimal comma, exponent) the way the parser reads the quantity of an amount.
 func ParseNumber(s string) (decimal.Decimal, error) {
+	if err := checkExponent(s); err != nil {
+		return decimal.Decimal{}, err
+	}
 	return decimal.NewFromString(normalizeAmountNumber(s))
+}
+
+// maxNumberExponent bounds the exponent of a number in E notation. The
+// decimal library accepts any exponent, and summing or printing "1E9999999"
+// means building a number of ten million digits: minutes of CPU for a
+// forty-byte journal.
+const maxNumberExponent = 255
+
+func checkExponent(s string) error {
+	i := strings.IndexAny(s, "eE")
+	if i < 0 {
+		return nil
+	}
+	exp := strings.TrimLeft(s[i+1:], "+-")
+	exp = strings.TrimLeft(exp, "0")
+	if len(exp) > 3 {
+		return fmt.Errorf("exponent out of range: %s", s)
+	}
+	if n, err := strconv.Atoi(exp); err == nil && n > maxNumberExponent {
+		return fmt.Errorf("exponent out of range: %s", s)
+	}
+	return nil
 }
 
 // normalizeAmountNumber turns a number as written in a journal (digit groups,
